@@ -173,6 +173,22 @@ def run(tier, seed):
         chunks = [rounds[i::14] for i in range(14)]
         tasks = [{"id": str(i), "op": "concurrency", "requests": reqs, "rounds": ch, "timeout": 900} for i, ch in enumerate(chunks) if ch]
         nat = Pool(14).run(tasks)
+        # wall-clock limits say little on a loaded machine: a round that looked hung (or whose worker ran into its time
+        # limit) is run again alone, in a fresh worker, with five-fold patience; only the second verdict counts
+        again = []
+        for tid, res in list(nat.items()):
+            if res.get("crashed") and res.get("timed_out") and res.get("progress") is not None:
+                again.append(rounds[res["progress"]])
+                del nat[tid]
+            elif not res.get("crashed"):
+                for o in res["rounds"]:
+                    if o["hung"]:
+                        again.append(rounds[o["rid"]])
+                res["rounds"] = [o for o in res["rounds"] if not o["hung"]]
+        if again:
+            retry = Pool(4).run([{"id": f"again{i}", "op": "concurrency", "requests": reqs, "rounds": [rd], "timeout": 4500, "patience": 5}
+                                 for i, rd in enumerate(again)])
+            nat.update(retry)
         vio = []
         outs = {}
         for tid, res in nat.items():
